@@ -259,3 +259,115 @@ func substIdent(x SExpr, from, to string) SExpr {
 	}
 	return x
 }
+
+// InferVariants tries template termination measures for every loop of fn and prints, per loop, the first that proves.
+func (p *Program) InferVariants(fn *ssa.Function, cfg *CheckConfig) map[int]string {
+	c := p.Contract(fn)
+	out := map[int]string{}
+	opt := VCOptions{SafetyKinds: map[string]bool{}, SafetyProps: []string{cfg.Property}, InlineDepth: 3, CandidateInvs: map[int][]*Clause{}}
+	vc := NewVC(p, fn, opt)
+	cands, err := vc.candidateInvariants()
+	if err != nil {
+		return out
+	}
+	vc.Opt.CandidateInvs = cands
+	rep := &FuncReport{Inferred: map[int][]string{}}
+	if err := p.houdini(vc, cfg, rep); err != nil {
+		return out
+	}
+	e := vc.newFnEnc(fn, "", true)
+	e.analyseCFG()
+	// expressions
+	var ints, lens []string
+	seen := map[string]bool{}
+	for _, cls := range cands {
+		for _, cl := range cls {
+			// harvest names from candidate sources of the form "X >= 0" and "X <= len(Y)"
+			if strings.HasSuffix(cl.Src, " >= 0") {
+				x := strings.TrimSuffix(cl.Src, " >= 0")
+				if !seen["i"+x] {
+					seen["i"+x] = true
+					ints = append(ints, x)
+				}
+			}
+			if i := strings.Index(cl.Src, " <= len("); i > 0 {
+				y := cl.Src[i+len(" <= len(") : len(cl.Src)-1]
+				if !seen["l"+y] {
+					seen["l"+y] = true
+					lens = append(lens, y)
+				}
+			}
+		}
+	}
+	saved := c
+	for _, li := range e.loops {
+		has := false
+		if c != nil {
+			for _, d := range c.Decs {
+				if d.Loop == li.ordinal {
+					has = true
+				}
+			}
+		}
+		if has {
+			continue
+		}
+		var exprs []string
+		for _, l := range lens {
+			exprs = append(exprs, "len("+l+")")
+			for _, v := range ints {
+				exprs = append(exprs, "len("+l+") - "+v)
+			}
+		}
+		for _, v := range ints {
+			exprs = append(exprs, v)
+		}
+		for _, ex := range exprs {
+			x, err := ParseSpecExpr(ex)
+			if err != nil {
+				continue
+			}
+			tmp := &FuncContract{}
+			if saved != nil {
+				cp := *saved
+				tmp = &cp
+			} else {
+				tmp.Pkg = pkgOf(fn)
+				tmp.Name = fn.RelString(fn.Pkg.Pkg)
+				tmp.Extra = map[string][]string{}
+			}
+			tmp.Decs = append(append([]*Clause{}, tmp.Decs...), &Clause{Kind: "decreases", Src: ex, Expr: x, Loop: li.ordinal, Props: []string{cfg.Property}})
+			p.Contracts.Funcs[FuncKey(fn)] = tmp
+			vc2 := NewVC(p, fn, vc.Opt)
+			ok := false
+			if err := vc2.Encode(); err == nil {
+				ax, _ := vc2.CompileAxioms(pkgOf(fn))
+				var todo []*Obligation
+				for _, o := range vc2.Obligations() {
+					if o.Kind == "variant" && strings.Contains(o.Name, fmt.Sprintf("loop%d.", li.ordinal)) {
+						todo = append(todo, o)
+					}
+				}
+				fast := *cfg
+				fast.Timeout = 3
+				res := solveAll(vc2, ax, todo, &fast)
+				ok = len(res) > 0
+				for _, r := range res {
+					if !r.OK {
+						ok = false
+					}
+				}
+			}
+			if saved != nil {
+				p.Contracts.Funcs[FuncKey(fn)] = saved
+			} else {
+				delete(p.Contracts.Funcs, FuncKey(fn))
+			}
+			if ok {
+				out[li.ordinal] = ex
+				break
+			}
+		}
+	}
+	return out
+}
